@@ -230,13 +230,15 @@ impl Prop for C13 {
     fn strategy(_tier: Tier, _shard: u32) -> BoxedStrategy<Case> {
         let wild_t = (gen::text(5), gen::text(5), gen::text(5));
         let sub = prop_oneof![
-            5 => proptest::collection::vec(triple(), 0..=4).prop_map(|triples| Sub::Spelling { triples }),
-            3 => (proptest::collection::vec(ws_seq(), 0..=4), 0u8..3).prop_map(|(seqs, mode)| Sub::Whitespace { seqs, mode }),
-            2 => (proptest::collection::vec(wild_t, 0..=3), 0u8..3).prop_map(|(triples, mode)| Sub::Wild { triples, mode }),
-            2 => (proptest::collection::vec(select(PLAIN_WORDS).prop_map(str::to_string), 1..=6),
+            10 => proptest::collection::vec(triple(), 0..=4).prop_map(|triples| Sub::Spelling { triples }),
+            1 => proptest::collection::vec(triple(), 5..=40).prop_map(|triples| Sub::Spelling { triples }),
+            6 => (proptest::collection::vec(ws_seq(), 0..=4), 0u8..3).prop_map(|(seqs, mode)| Sub::Whitespace { seqs, mode }),
+            1 => (proptest::collection::vec(ws_seq(), 5..=40), 0u8..3).prop_map(|(seqs, mode)| Sub::Whitespace { seqs, mode }),
+            4 => (proptest::collection::vec(wild_t, 0..=3), 0u8..3).prop_map(|(triples, mode)| Sub::Wild { triples, mode }),
+            4 => (proptest::collection::vec(select(PLAIN_WORDS).prop_map(str::to_string), 1..=6),
                   proptest::collection::vec((any::<u16>(), select(PLAIN_WORDS).prop_map(str::to_string)), 1..=3))
                 .prop_map(|(words, replaced)| Sub::BreakCorrect { words, replaced }),
-            2 => (0usize..=4).prop_flat_map(|n| (
+            4 => prop_oneof![12 => 0usize..=4, 1 => 5usize..=60].prop_flat_map(|n| (
                     proptest::collection::vec(prop_oneof![gen::text(4), select(WORDS).prop_map(str::to_string)], n),
                     proptest::collection::vec(prop_oneof![gen::text(4), select(WORDS).prop_map(str::to_string)], n),
                     proptest::collection::vec(any::<bool>(), n),
